@@ -309,7 +309,7 @@ func runDetSched(o *Out, _ *rand.Rand, thorough bool) {
 	for ci := 0; ci < ncases; ci++ {
 		rng := o.CaseRng(ci)
 		c := genCase(rng, fullProfile(5+rng.Intn(6), 1+rng.Intn(3)))
-		c.Solve = &CSolve{Runs: []int{1, 2, 3}[rng.Intn(3)], Starts: rng.Intn(2), Det: true, Iters: 800 + rng.Intn(1500)}
+		c.Solve = &CSolve{Runs: []int{1, 1, 2, 3}[rng.Intn(4)], Starts: rng.Intn(2), Det: true, Iters: 800 + rng.Intn(1500)}
 		if replayFile != "" {
 			c = loadReplayCase(replayFile)
 			ncases = 1
@@ -329,12 +329,51 @@ func runDetSched(o *Out, _ *rand.Rand, thorough bool) {
 			if pan != nil || err != nil {
 				break
 			}
-			nextroute.VerifHook = scheduleHook(sch.delays, sch.nth)
-			sols, _, serr, span := solveAll(bt.model, nextroute.ParallelSolveOptions{Iterations: c.Solve.Iters, Duration: 30 * time.Second,
-				ParallelRuns: c.Solve.Runs, StartSolutions: c.Solve.Starts, RunDeterministically: true})
+			// protocol invariant for ONE parallel run: a run starts from the best of what the previous runs reported
+			sh := scheduleHook(sch.delays, sch.nth)
+			var mu sync.Mutex
+			copied := map[int]float64{}    // run → score it started from (copy of the shared best)
+			reported := map[int]float64{}  // run → best score it reported
+			nextroute.VerifHook = func(site string, args ...any) {
+				if site == "worker_copied" {
+					mu.Lock()
+					copied[args[0].(int)] = args[1].(float64)
+					mu.Unlock()
+				}
+				sh(site, args...)
+			}
+			sols, _, serr, span := solveAllWith(bt.model, nextroute.ParallelSolveOptions{Iterations: c.Solve.Iters, Duration: 30 * time.Second,
+				ParallelRuns: c.Solve.Runs, StartSolutions: c.Solve.Starts, RunDeterministically: true},
+				func(ps nextroute.ParallelSolver) {
+					ps.ParallelSolveEvents().NewSolution.Register(func(info nextroute.ParallelSolveInformation, s nextroute.Solution) {
+						mu.Lock()
+						if v, ok := reported[info.Run()]; !ok || s.Score() < v {
+							reported[info.Run()] = s.Score()
+						}
+						mu.Unlock()
+					})
+				})
 			nextroute.VerifHook = nil
 			if span != nil || serr != nil {
 				continue
+			}
+			if c.Solve.Runs == 1 {
+				best := copied[1]
+				for r := 1; ; r++ {
+					cs, ok := copied[r]
+					if !ok {
+						break
+					}
+					if cs > best+1e-9 {
+						o.Violate(Violation{Property: "C13", Clause: "run-started-from-stale-best", Sig: "C13|run-started-from-stale-best|runs=1|" + sch.name,
+							Detail: fmt.Sprintf("run %d started from score %v although the previous runs had reported %v", r, cs, best), Replay: c})
+						break
+					}
+					if v, ok := reported[r]; ok && v < best {
+						best = v
+					}
+				}
+				o.Count("protocol-invariant-checked")
 			}
 			sig := finalSig(bt.b, sols)
 			results[sig] = append(results[sig], sch.name)
